@@ -59,6 +59,12 @@ def _child_main(inv: dict, wfd: int) -> None:
         os.umask(inv.get("umask", 0o022))
         seams = Seams(inv, sink=sink)
         seams.install()
+        for hook in inv.get("inrun", []):
+            # in-run invariants: "package.module:function" called with the seams object inside the child
+            import importlib
+
+            mod_name, fn_name = hook.split(":")
+            getattr(importlib.import_module(mod_name), fn_name)(seams)
         sys.argv = list(inv["argv"])
         sys.stdout = out
         sys.stderr = err
